@@ -1,0 +1,26 @@
+//go:build verif
+// +build verif
+
+package fstest
+
+import (
+	"testing"
+
+	"github.com/hack-pad/hackpadfs"
+)
+
+// Verification shims (build tag 'verif' only): the suite's own assertion helpers, so that their verdicts
+// can be compared with a model of them.
+
+// FSEntryVerif is the record tryAssertEqualFS compares.
+type FSEntryVerif = fsEntry
+
+// TryAssertEqualFSVerif is tryAssertEqualFS.
+func (o FSOptions) TryAssertEqualFSVerif(tb testing.TB, expected map[string]FSEntryVerif, actual hackpadfs.FS) {
+	o.tryAssertEqualFS(tb, expected, actual)
+}
+
+// AssertEqualPathErrVerif is assertEqualPathErr.
+func (o FSOptions) AssertEqualPathErrVerif(tb testing.TB, expected *hackpadfs.PathError, actual error) {
+	o.assertEqualPathErr(tb, expected, actual)
+}
